@@ -1464,7 +1464,8 @@ impl<T: PPGEvaluatorStrategy> PPGEvaluator<T> {
                                 self.gen
                             );
                         }
-                        JobState::Ephemeral(JobStateEphemeral::NotReady(_)) => {
+                        JobState::Ephemeral(JobStateEphemeral::NotReady(_))
+                        | JobState::Ephemeral(JobStateEphemeral::ReadyButDelayed) => {
                             set_node_state!(
                                 j,
                                 JobState::Ephemeral(JobStateEphemeral::FinishedUpstreamFailure),
